@@ -206,6 +206,28 @@ pub fn main(args: &Args) -> i32 {
             w.flush()
         });
     }
+    // stream names are limited in UTF-16 units after packing, not in bytes: 31 three-byte characters fit, 32 do not
+    for n in [21usize, 31, 32] {
+        let p = fresh();
+        let name: String = std::iter::repeat('\u{65e5}').take(n).collect();
+        o.step(p, "sname16", "write_stream, three-byte characters", n as u64, |p| {
+            let mut w = p.write_stream(&name)?;
+            w.write_all(b"data")?;
+            w.flush()
+        });
+    }
+    // the catalog tables are tables too: create_table when _Validation (or _Columns) cannot take its rows
+    {
+        let mut p = fresh();
+        // orphan validation rows, as another tool may leave them, up to 3 below the row limit
+        let have = p.select_rows(Select::table("_Validation")).map(|r| r.len()).unwrap_or(0);
+        let orphans: Vec<Vec<Value>> = (0..(65536 - 3 - have)).map(|k| {
+            vec![Value::Str(format!("Gone{}", k / 256)), Value::Str(format!("c{}", k % 256)), Value::Str("Y".into()), Value::Null, Value::Null, Value::Null, Value::Null, Value::Null, Value::Null, Value::Null]
+        }).collect();
+        p.insert_rows(Insert::into("_Validation").rows(orphans)).unwrap();
+        p = o.step(p, "rows", "create_table whose validation rows do not fit any more", 65537, |p| p.create_table("Wide4", int_cols(4)));
+        let _ = o.step(p, "rows", "create_table whose validation rows just fit", 65536, |p| p.create_table("Wide3", int_cols(3)));
+    }
     // --- rows: one batch to L-1, L, L+1
     let two = || vec![Column::build("K").primary_key().int32(), Column::build("V").nullable().int16()];
     for n in [65535i32, 65536, 65537] {
